@@ -19,6 +19,7 @@ ASSUMED = ['encode, walker beyond the five tree shapes: bounded stand-in', 'Grap
 
 def build(H, tier, seed):
     M.vc_graph_derived(H)
+    M.vc_graph_refresh(H)
     M.vc_inplacereplace(H)
     M.vc_encode(H)
 
